@@ -116,7 +116,8 @@ class Alarm
     };
     State state_ = State::kNone;  //!< 当前状态
 
-    uint32_t target_utc_sec_ = 0;
+    uint32_t target_utc_sec_ = 0;   //!< 当前定时所指向的时间点
+    uint32_t fired_utc_sec_ = 0;    //!< 最近一次已触发的时间点，下一个时间点必须在它之后
 };
 
 }
